@@ -282,7 +282,9 @@ func (g *gen) instants() []int64 {
 	for _, a := range g.m.Auctions {
 		switch a.Status {
 		case StStandby:
-			out = append(out, a.StartNs)
+			if a.StartNs < FarBaseNs { // an auction scheduled centuries ahead is never reached by a run
+				out = append(out, a.StartNs)
+			}
 		case StStarted:
 			out = append(out, a.EndTimes[len(a.EndTimes)-1])
 		case StVesting:
@@ -669,10 +671,22 @@ func (g *gen) txCreate(pm *Model) *Tx {
 	if end == g.now {
 		end++ // L3: end exactly at the block time is a don't-care, not generated
 	}
+	far := false
+	if g.p.Name != "cli" && g.chance(0.03) {
+		// scheduled centuries ahead (beyond the year 2262, where Unix nanoseconds in an int64 end): legal,
+		// stays waiting for the whole run, can be cancelled, accepts no bid
+		far = true
+		start = FarBaseNs + g.pickInt(0, 1, 1e9, 86400e9, 365*86400e9)
+		end = start + g.pickInt(1, 1e9, 3600e9, 86400e9, 7*86400e9)
+		g.intents["far_future_start"]++
+	}
 	m := Msg{Who: who, StartPrice: g.price(), SellingCoin: &Coin{sell, g.amount().String()}, PayingDenom: pay, StartNs: start, EndNs: end}
 	nv := g.in(g.p.Vesting[0], g.p.Vesting[1])
 	if g.chance(0.02) {
 		nv = 100
+	}
+	if far && nv > 3 {
+		nv = 3
 	}
 	m.Vesting = g.vesting(nv, end)
 	if batch {
